@@ -104,6 +104,9 @@ func (server *SugarDB) getHandlerFuncParams(ctx context.Context, cmd []string, c
 }
 
 func (server *SugarDB) handleCommand(ctx context.Context, message []byte, conn *net.Conn, replay bool, embedded bool) ([]byte, error) {
+	// When replaying a logged command, the caller provides the database in the context.
+	replayDatabase := ctx.Value("Database")
+
 	// Prepare context before processing the command.
 	server.connInfo.mut.RLock()
 	if embedded && !replay {
@@ -120,6 +123,11 @@ func (server *SugarDB) handleCommand(ctx context.Context, message []byte, conn *
 		ctx = context.WithValue(ctx, "Database", server.connInfo.tcpClients[conn].Database)
 	}
 	server.connInfo.mut.RUnlock()
+
+	if replay && replayDatabase != nil {
+		// There is no connection during a replay: keep the database the log entry was recorded for.
+		ctx = context.WithValue(ctx, "Database", replayDatabase)
+	}
 
 	cmd, err := internal.Decode(message)
 	if err != nil {
